@@ -58,6 +58,13 @@ def t_kv(p: tuple[K, V], k: K, cb: Callable[[V], None]) -> None: ...
 def t_cbT(p: tuple[Callable[[T], None], T]) -> None: ...
 def t_var(p: tuple[TC, ...], y: TC) -> bool: ...
 def t_nest(ps: list[tuple[TC, TC]], y: TC) -> bool: ...
+# single-parameter / nested forms (round-4 seeded change: bounds of the members of a UNION-typed argument)
+def f_l1(xs: list[T]) -> T: ...
+def n_l1(xs: list[TC]) -> bool: ...
+def f_ll(xs: list[list[T]]) -> T: ...
+def n_ll(xs: list[list[TC]], y: TC) -> bool: ...
+def n_cb1(cb: Callable[[TC], None]) -> None: ...
+def n_dict(d: dict[TC, TC]) -> bool: ...
 def f_opt(x: T | None, y: T) -> T: ...
 def f_or(x: T | list[T], y: T) -> T: ...
 def f_opt1(x: T | None) -> T: ...
@@ -105,6 +112,12 @@ SIGS = {
     "t_cbT": (t_cbT, ["tc"], False),
     "t_var": (t_var, ["tv", "s"], False),
     "t_nest": (t_nest, ["tl", "s"], False),
+    "f_l1": (f_l1, ["l"], False),
+    "n_l1": (n_l1, ["l"], False),
+    "f_ll": (f_ll, ["ll"], False),
+    "n_ll": (n_ll, ["ll", "s"], False),
+    "n_cb1": (n_cb1, ["c"], False),
+    "n_dict": (n_dict, ["d"], False),
     "f_opt": (f_opt, ["s", "s"], False),
     "f_or": (f_or, ["sl", "s"], False),
     "f_opt1": (f_opt1, ["s"], False),
@@ -121,16 +134,18 @@ BARE = {
     "f_dict": {1: "~K"}, "f_cb": {0: "~T"}, "f_cbx": {2: "~T"}, "f_b": {0: "~TB", 1: "~TB"}, "f_a": {0: "~TA", 1: "~TA"},
     "f_c": {0: "~TC", 1: "~TC"}, "f_d": {0: "~TD", 1: "~TD"}, "f_cl": {1: "~TC"},
     "f_opt": {1: "~T"}, "f_or": {1: "~T"},
-    "t_kv": {1: "~K"}, "t_var": {1: "~TC"}, "t_nest": {1: "~TC"},
+    "t_kv": {1: "~K"}, "t_var": {1: "~TC"}, "t_nest": {1: "~TC"}, "n_ll": {1: "~TC"},
     "n_xy": {0: "~T", 1: "~T"}, "n_c": {0: "~TC", 1: "~TC"}, "n_d": {0: "~TD", 1: "~TD"}, "n_b": {0: "~TB", 1: "~TB"},
     "n_cl": {1: "~TC"}, "n_cb": {0: "~T"}, "n_cb2": {2: "~T"},
 }
 
 # argument pools: name -> constructor of the pyanalyze Value (built lazily)
 SCALARS = ["k1", "kTrue", "ka", "k1_5", "kNone", "t_int", "t_str", "t_float", "t_bool", "t_A", "t_B", "t_C", "kAinst", "kBinst", "any", "u_int_str", "u_1_a"]
-LISTS = ["l_int", "l_str", "l_bool", "l_obj", "l_lit1", "l_lit1a", "l_empty", "l_A", "l_B", "tup_int", "k_list12", "any"]
-DICTS = ["d_str_int", "d_int_str", "d_lit", "any"]
-CALLBACKS = ["g_int", "g_str", "g_obj", "g_float", "g_bool", "g_int_str", "any"]
+LISTS = ["l_int", "l_str", "l_bool", "l_obj", "l_lit1", "l_lit1a", "l_empty", "l_A", "l_B", "tup_int", "k_list12", "any",
+         "ul_int_str", "ul_str_int", "ul_int_bool", "ul_A_B", "ul_lit1_str"]
+DICTS = ["d_str_int", "d_int_str", "d_lit", "any", "d_int_int", "d_str_str", "ud_ii_ss", "ud_si_is"]
+CALLBACKS = ["g_int", "g_str", "g_obj", "g_float", "g_bool", "g_int_str", "any", "uc_int_str", "uc_str_int", "uc_int_obj", "uc_float_bool"]
+NESTED = ["ll_int", "ll_str", "ll_1_a", "ll_a_1", "ll_1_True", "ul_ll_int_str"]
 # tuple arguments: name -> names of the member values (resolved through arg_value)
 TUPLES = {
     "tp_1_a": ["k1", "ka"], "tp_1_True": ["k1", "kTrue"], "tp_a_a": ["ka", "ka"], "tp_int_str": ["t_int", "t_str"],
@@ -146,7 +161,7 @@ MEMBER_TV = {
 }
 CB_PARAM = {"g_int": "t_int", "g_str": "t_str", "g_obj": None, "g_float": "t_float", "g_bool": "t_bool", "g_int_str": "t_int"}
 
-POOLS = {"tp": list(TUPLES), "tc": list(CB_TUPLES), "tv": list(VAR_TUPLES), "tl": list(LIST_TUPLES), "s": SCALARS, "l": LISTS, "d": DICTS, "c": CALLBACKS, "sl": SCALARS + LISTS}
+POOLS = {"ll": NESTED, "tp": list(TUPLES), "tc": list(CB_TUPLES), "tv": list(VAR_TUPLES), "tl": list(LIST_TUPLES), "s": SCALARS, "l": LISTS, "d": DICTS, "c": CALLBACKS, "sl": SCALARS + LISTS}
 
 # arguments that mostly fit a signature's declaration (used for 70% of the draws, so that the
 # bounded / constrained signatures are not almost always rejected)
@@ -156,6 +171,7 @@ FRIENDLY = {
     "f_c": ["k1", "kTrue", "ka", "t_int", "t_str", "t_bool", "any"],
     "f_d": ["k1", "k1_5", "ka", "t_float", "t_str", "t_A", "t_B", "kAinst", "t_int", "any"],
     "n_c": ["k1", "kTrue", "ka", "t_int", "t_str", "t_bool"],
+    "n_ll": ["k1", "ka", "t_int", "t_str"],
     "t_var": ["k1", "ka", "t_int", "t_str", "kTrue"], "t_nest": ["k1", "ka", "t_int", "t_str"], "t_kv": ["k1", "ka", "t_int", "t_str"],
     "n_d": ["k1", "k1_5", "ka", "t_float", "t_str", "t_A", "kAinst", "t_int"],
     "n_b": ["k1", "kTrue", "k1_5", "t_int", "t_float", "t_bool"],
@@ -203,7 +219,49 @@ def arg_value(name):
             _vals[name] = GenericValue(tuple, [arg_value(VAR_TUPLES[name])])
         elif name in LIST_TUPLES:
             _vals[name] = GenericValue(list, [arg_value(LIST_TUPLES[name])])
+        elif name in UNION_LISTS or name in UNION_DICTS or name in UNION_CBS:
+            from pyanalyze.value import MultiValuedValue
+
+            ms = UNION_LISTS.get(name) or UNION_DICTS.get(name) or UNION_CBS[name]
+            _vals[name] = MultiValuedValue([arg_value(m) for m in ms])
+        elif name in ("d_int_int", "d_str_str"):
+            from pyanalyze.value import TypedValue
+
+            t = TypedValue(int if name == "d_int_int" else str)
+            _vals[name] = GenericValue(dict, [t, t])
+        elif name in ("ll_int", "ll_str"):
+            _vals[name] = GenericValue(list, [arg_value("l_int" if name == "ll_int" else "l_str")])
+        elif name in ("ll_1_a", "ll_a_1", "ll_1_True"):
+            a, b = NESTED_ELEMS[name]
+            _vals[name] = SequenceValue(list, [(False, SequenceValue(list, [(False, arg_value(a))])), (False, SequenceValue(list, [(False, arg_value(b))]))])
+        elif name == "ul_ll_int_str":
+            from pyanalyze.value import MultiValuedValue
+
+            _vals[name] = MultiValuedValue([arg_value("ll_int"), arg_value("ll_str")])
     return _vals[name]
+
+
+# --- harness-side description of how arguments bound the type variables (independent of pyanalyze) ---
+# element value names of list / Sequence arguments; a union-typed argument lists the elements of EVERY member
+LIST_ELEMS = {
+    "l_int": ["t_int"], "l_str": ["t_str"], "l_bool": ["t_bool"], "l_lit1": ["k1"], "l_lit1a": ["k1", "ka"], "l_empty": [],
+    "l_A": ["t_A"], "l_B": ["t_B"], "tup_int": ["t_int"],
+    "ul_int_str": ["t_int", "t_str"], "ul_str_int": ["t_str", "t_int"], "ul_int_bool": ["t_int", "t_bool"], "ul_A_B": ["t_A", "t_B"],
+    "ul_lit1_str": ["k1", "t_str"],
+}
+UNION_LISTS = {"ul_int_str": ["l_int", "l_str"], "ul_str_int": ["l_str", "l_int"], "ul_int_bool": ["l_int", "l_bool"], "ul_A_B": ["l_A", "l_B"], "ul_lit1_str": ["l_lit1", "l_str"]}
+NESTED_ELEMS = {"ll_int": ["t_int"], "ll_str": ["t_str"], "ll_1_a": ["k1", "ka"], "ll_a_1": ["ka", "k1"], "ll_1_True": ["k1", "kTrue"], "ul_ll_int_str": ["t_int", "t_str"]}
+DICT_KV = {"d_str_int": (["t_str"], ["t_int"]), "d_int_str": (["t_int"], ["t_str"]), "d_lit": (["ka"], ["k1"]), "d_int_int": (["t_int"], ["t_int"]),
+           "d_str_str": (["t_str"], ["t_str"]), "ud_ii_ss": (["t_int", "t_str"], ["t_int", "t_str"]), "ud_si_is": (["t_str", "t_int"], ["t_int", "t_str"])}
+UNION_DICTS = {"ud_ii_ss": ["d_int_int", "d_str_str"], "ud_si_is": ["d_str_int", "d_int_str"]}
+UNION_CBS = {"uc_int_str": ["g_int", "g_str"], "uc_str_int": ["g_str", "g_int"], "uc_int_obj": ["g_int", "g_obj"], "uc_float_bool": ["g_float", "g_bool"]}
+# parameter positions: list[T] / Sequence[T]; list[list[T]]; Callable[[T], ..]; dict[K, V]
+LIST_TV = {"f_list": {0: "~T"}, "f_lists": {0: "~T", 1: "~T"}, "f_seq": {0: "~T"}, "f_cl": {0: "~TC"}, "n_cl": {0: "~TC"}, "n_list": {0: "~T"},
+           "f_l1": {0: "~T"}, "n_l1": {0: "~TC"}}
+NEST_TV = {"f_ll": {0: "~T"}, "n_ll": {0: "~TC"}}
+CB_TV = {"f_cb": {1: "~T"}, "n_cb": {1: "~T"}, "f_cb2": {0: "~T", 1: "~T"}, "f_cbx": {0: "~T", 1: "~T"}, "n_cb2": {0: "~T", 1: "~T"},
+         "n_list": {1: "~T"}, "n_cb1": {0: "~TC"}}
+DICT_TV = {"f_dict": {0: ("~K", "~V")}, "n_dict": {0: ("~TC", "~TC")}}
 
 
 def member_bounds(sig_name, arg_names):
@@ -228,9 +286,36 @@ def member_bounds(sig_name, arg_names):
                     out.setdefault(tvn[1], ([], []))[1].append(arg_value(p))
             else:
                 out.setdefault(tvn, ([], []))[0].append(arg_value(m))
+    unknown = set()  # type variables fed by an argument the tables do not describe: not judged
     for i, tvn in BARE.get(sig_name, {}).items():
-        if sig_name in MEMBER_TV:
-            out.setdefault(tvn, ([], []))[0].append(arg_value(arg_names[i]))
+        out.setdefault(tvn, ([], []))[0].append(arg_value(arg_names[i]))
+    for i, tvn in LIST_TV.get(sig_name, {}).items():
+        if arg_names[i] in LIST_ELEMS:
+            out.setdefault(tvn, ([], []))[0].extend(arg_value(e) for e in LIST_ELEMS[arg_names[i]])
+        else:
+            unknown.add(tvn)
+    for i, tvn in NEST_TV.get(sig_name, {}).items():
+        if arg_names[i] in NESTED_ELEMS:
+            out.setdefault(tvn, ([], []))[0].extend(arg_value(e) for e in NESTED_ELEMS[arg_names[i]])
+        else:
+            unknown.add(tvn)
+    for i, (tk, tv_) in DICT_TV.get(sig_name, {}).items():
+        if arg_names[i] in DICT_KV:
+            ks, vs = DICT_KV[arg_names[i]]
+            out.setdefault(tk, ([], []))[0].extend(arg_value(e) for e in ks)
+            out.setdefault(tv_, ([], []))[0].extend(arg_value(e) for e in vs)
+        else:
+            unknown.update((tk, tv_))
+    for i, tvn in CB_TV.get(sig_name, {}).items():
+        members = UNION_CBS.get(arg_names[i], [arg_names[i]])
+        if all(m in CB_PARAM for m in members):
+            for m in members:
+                if CB_PARAM[m] is not None:
+                    out.setdefault(tvn, ([], []))[1].append(arg_value(CB_PARAM[m]))
+        else:
+            unknown.add(tvn)
+    for tvn in unknown:
+        out.pop(tvn, None)
     if sig_name == "t_kv" and arg_names[2] in CB_PARAM and CB_PARAM[arg_names[2]] is not None:
         out.setdefault("~V", ([], []))[1].append(arg_value(CB_PARAM[arg_names[2]]))
     return out
@@ -346,7 +431,7 @@ def check_call(sig_name, arg_names):
         if not ok:
             out["unsatisfiable"].append(tvn + " (members)")
             if not out["diagnosed"]:
-                out["failures"].append({"what": f"no candidate value satisfies the bounds the members of the tuple argument impose on {tvn} "
+                out["failures"].append({"what": f"no candidate value satisfies the bounds the harness derives from the arguments (every member of a union-typed or tuple argument counts) for {tvn} "
                                                 f"(lower: {', '.join(map(str, lows))}; upper: {', '.join(map(str, ups2))}) but the call is accepted",
                                         "kind": "unsatisfiable", "accepted": True})
     for tv, bounds in bm.items():
